@@ -516,6 +516,11 @@ const MAX_INSTANCE_TYPE_SIZE: usize = 512;
 /// function is bounded as well.
 const MAX_INSTANCES_PER_FUNCTION: usize = 1024;
 
+/// A type that mentions itself at two different larger instances
+/// (`enum Nest[T] { Leaf(T), A(Nest[Ref[T]]), B(Nest[Vec[T]]) }`) doubles its instances with every
+/// level as well: the number of instances of one generic type is bounded too.
+const MAX_INSTANCES_PER_TYPE: usize = 1024;
+
 fn ty_size(ty: &Ty) -> usize {
     match ty {
         Ty::TTuple { typs } => 1 + typs.iter().map(ty_size).sum::<usize>(),
@@ -908,6 +913,8 @@ struct TypeMono<'a> {
     struct_base: IndexMap<TastIdent, StructDef>,
     /// generic types whose instances grow without bound (`enum Nest[T] { Node(Nest[Box[T]]) }`)
     too_large: IndexSet<String>,
+    /// how many instances each generic type has been given so far
+    instance_counts: IndexMap<String, usize>,
     /// the function whose body is being rewritten
     current_fn: String,
     /// operators of generic code applied, in an instance, to operands they are not defined for
@@ -924,6 +931,7 @@ impl<'a> TypeMono<'a> {
             enum_base,
             struct_base,
             too_large: IndexSet::new(),
+            instance_counts: IndexMap::new(),
             current_fn: String::new(),
             bad_operands: IndexSet::new(),
         }
@@ -1043,7 +1051,11 @@ impl<'a> TypeMono<'a> {
             new_name.0.push('_');
         }
         self.map.insert(key.clone(), new_name.clone());
-        if args.iter().any(|ty| ty_size(ty) > MAX_INSTANCE_TYPE_SIZE) {
+        let count = self.instance_counts.entry(name.to_string()).or_insert(0);
+        *count += 1;
+        if *count > MAX_INSTANCES_PER_TYPE
+            || args.iter().any(|ty| ty_size(ty) > MAX_INSTANCE_TYPE_SIZE)
+        {
             // a type that mentions itself at an ever larger instance: stop expanding and report
             self.too_large.insert(name.to_string());
             return new_name;
